@@ -760,6 +760,8 @@ func execGA(c Case) [][][]string {
 	return out
 }
 
+var c03SentinelLost bool
+
 func execSQL(c Case) [][][]string {
 	fields := parseFields(c)
 	gcols := hexList(cfgGet(c, "groupby"))
@@ -810,14 +812,21 @@ func execSQL(c Case) [][][]string {
 	}
 	isSentinel := func(b []map[string]interface{}) bool {
 		for _, r := range b {
-			if f, ok := r["zc"].(float64); ok && int(f) == n {
+			// >= : a count that wrongly accumulates across batches still ends the wait
+			if f, ok := r["zc"].(float64); ok && int(f) >= n {
 				return true
 			}
 		}
 		return false
 	}
 	var lines [][]string
-	deadline := time.After(5 * time.Second)
+	// the deadline is only reached when the implementation loses the sentinel batch; after the first
+	// loss in this process the following cases wait briefly (a broken tree must not take minutes)
+	wait := 3 * time.Second
+	if c03SentinelLost {
+		wait = 300 * time.Millisecond
+	}
+	deadline := time.After(wait)
 	for bi := 0; ; bi++ {
 		select {
 		case b := <-ch:
@@ -829,6 +838,7 @@ func execSQL(c Case) [][][]string {
 				lines = append(lines, append([]string{"b", strconv.Itoa(bi)}, l...))
 			}
 		case <-deadline:
+			c03SentinelLost = true
 			out[flushAt] = append(lines, []string{"sentinel-batch-never-arrived"})
 			return out
 		}
